@@ -106,6 +106,8 @@ pub struct CircuitBuilder<F> {
     pub bnd: Ghost<Set<ExprId>>,
     /// taint (C06): the full output state of the latest sponge-table row is pinned (in-table chaining)
     pub chain: Ghost<bool>,
+    /// the full output state (values) of the latest permutation-table row: what an omitted input limb chains to
+    pub row: Ghost<Seq<F>>,
     pub expr_builder: ExprBuilderStub<F>,
     pub ext_select_sources: SelectSourcesStub,
 }
@@ -124,7 +126,7 @@ impl<F: Field> CircuitBuilder<F> {
         &&& forall|e: ExprId| #[trigger] old.bound(e) ==> self.bound(e)
     }
     /// `extends` without new constraints
-    pub open spec fn extends_pure(&self, old: &Self) -> bool { self.extends(old) && self.sat@ == old.sat@ && self.chain@ == old.chain@ }
+    pub open spec fn extends_pure(&self, old: &Self) -> bool { self.extends(old) && self.sat@ == old.sat@ && self.chain@ == old.chain@ && self.row@ == old.row@ }
 
     pub proof fn lemma_extends_trans(a: &Self, b: &Self, c: &Self)
         requires b.extends(a), c.extends(b) ensures c.extends(a) {}
